@@ -109,7 +109,9 @@ def opTime (args : List String) : String :=
   | [side, plys, wt, bt, wi, bi, mtg, mt] =>
     -- the definition regenerated from the Go source text (tools/go2lean) is what is compared with the Go function
     let sp : Src.search.SearchParameter := ⟨parseInt wt, parseInt bt, parseInt wi, parseInt bi, parseInt mtg, 0#8, parseInt mt, false⟩
-    s!"m.budget={Src.search.calculateTime (BitVec.ofNat 8 (side.toNat?.getD 0)) (parseInt plys) sp}"
+    -- `budgeth`: the hand-written model (Model/Time.lean), the fall-back route when the regenerated definition cannot be used
+    let hsp : SearchParams := { wtime := parseInt wt, btime := parseInt bt, winc := parseInt wi, binc := parseInt bi, movesToGo := parseInt mtg, moveTime := parseInt mt }
+    s!"m.budget={Src.search.calculateTime (BitVec.ofNat 8 (side.toNat?.getD 0)) (parseInt plys) sp} m.budgeth={calculateTime (side.toNat?.getD 0) (parseInt plys) hsp}"
   | _ => "bad-op"
 
 def spStr (sp : SearchParams) : String :=
@@ -121,7 +123,11 @@ def msgStr : GoMsg → String
 /-- `go <tokenhex>…` -/
 def opGo (args : List String) : String :=
   match parseGo atoiFull (args.map unhexBytes) with
-  | some (sp, msgs) => s!"m.res=ok m.sp={spStr sp} m.msgs={if msgs.isEmpty then "-" else ";".intercalate (msgs.map msgStr)}"
+  | some (sp, msgs) =>
+    -- a token in keyword position that is not one of the standard parameters puts the line outside the lines "built from the
+    -- standard parameters": there only totality is claimed, so agreement with the model is not demanded (`s.dom=0`)
+    let dom := if msgs.any (fun m => match m with | .unknown => true | _ => false) then "s.dom=0 " else ""
+    s!"{dom}m.res=ok m.sp={spStr sp} m.msgs={if msgs.isEmpty then "-" else ";".intercalate (msgs.map msgStr)}"
   | none => "m.res=panic"
 
 /-- `gof <expected> <n> <tokenhex>…`: like `go`, the expectation is judged on the Go side -/
@@ -227,7 +233,7 @@ def opGoTime (args : List String) : String :=
     match parseGo atoiFull (toks.map unhexBytes) with
     | some (sp, _) =>
       let ssp : Src.search.SearchParameter := ⟨sp.wtime, sp.btime, sp.winc, sp.binc, sp.movesToGo, BitVec.ofNat 8 sp.depth, sp.moveTime, sp.infinite⟩
-      s!"m.budget={Src.search.calculateTime (BitVec.ofNat 8 (side.toNat?.getD 0)) (parseInt plys) ssp}"
+      s!"m.budget={Src.search.calculateTime (BitVec.ofNat 8 (side.toNat?.getD 0)) (parseInt plys) ssp} m.budgeth={calculateTime (side.toNat?.getD 0) (parseInt plys) sp}"
     | none => "m.res=panic"
   | _ => "bad-op"
 end Driver
